@@ -190,6 +190,14 @@ Proof.
 Qed.
 
 (* ---- the concrete keys (compared once, here) ---- *)
+Lemma single_del k k' sd : single k sd -> single k (dict_del k' sd).
+Proof.
+  intros H. unfold single. destruct (bytes_eqb k' k) eqn:E.
+  - apply bytes_eqb_eq in E. subst k'. rewrite dict_get_del_same. apply nget_none, dict_get_del_same.
+  - apply bytes_eqb_false_neq in E.
+    rewrite (nget_del_other k' k sd E), (dict_get_del_other k' k sd E). exact H.
+Qed.
+
 Lemma Filter_ne_DecodeParms : k_Filter <> k_DecodeParms.
 Proof. apply bytes_eqb_false_neq. vm_compute. reflexivity. Qed.
 Lemma DecodeParms_ne_Filter : k_DecodeParms <> k_Filter.
@@ -242,7 +250,7 @@ Proof.
   intros H. unfold append_filter. destruct f as [name parms].
   destruct (dict_get k_Filter sd) as [o|]; [destruct o|]; cbv zeta;
     repeat match goal with |- context [if ?b then _ else _] => destruct b end;
-    repeat apply single_set; exact H.
+    repeat (apply single_set || apply single_del); exact H.
 Qed.
 
 Lemma Forall2_repeat_null fs :
@@ -293,9 +301,11 @@ Proof.
   - (* the first filter *)
     intros [HF HD]. cbn [app]. unfold chain_repr, append_filter. destruct f as [name parms].
     rewrite HF. cbv zeta. cbn [fst snd].
-    destruct parms as [|x parms]; cbn [length Nat.eqb negb]; (split; dsimp; [reflexivity|]).
-    + exact HD.
-    + reflexivity.
+    destruct parms as [|x parms]; cbn [length Nat.eqb negb].
+    + split.
+      * rewrite (dict_get_del_other k_DecodeParms k_Filter _ DecodeParms_ne_Filter). dsimp. reflexivity.
+      * apply dict_get_del_same.
+    + split; dsimp; reflexivity.
   - (* the second filter: a name becomes an array *)
     destruct f0 as [n0 p0]. intros [HF HD]. cbn [fst snd] in HF, HD.
     change ([(n0, p0)] ++ [f]) with [(n0, p0); f]. unfold chain_repr, repr_many, append_filter.
@@ -515,6 +525,44 @@ Proof.
     + change (@nil obj) with (map norm (@nil obj)). apply fc_go_zip, W.
 Qed.
 
+Lemma single_set_same k v sd : single k (dict_set k v sd).
+Proof. unfold single. rewrite nget_set_same, dict_get_set_same. reflexivity. Qed.
+
+Lemma single_del_same k sd : single k (dict_del k sd).
+Proof. unfold single. rewrite dict_get_del_same. apply nget_none, dict_get_del_same. Qed.
+
+(* the first filter on a dictionary without /Filter: a /DecodeParms that may be there is replaced
+   or removed *)
+Lemma append_filter_first sd f :
+  dict_get k_Filter sd = None ->
+  chain_repr [f] (append_filter sd f) /\
+  single k_Filter (append_filter sd f) /\ single k_DecodeParms (append_filter sd f).
+Proof.
+  intros HF. pose proof (single_absent _ _ HF) as S1.
+  unfold chain_repr, append_filter. destruct f as [name parms]. rewrite HF. cbv zeta. cbn [fst snd].
+  destruct parms as [|x parms]; cbn [length Nat.eqb negb].
+  - split; [split|split].
+    + rewrite (dict_get_del_other k_DecodeParms k_Filter _ DecodeParms_ne_Filter). dsimp. reflexivity.
+    + apply dict_get_del_same.
+    + apply single_del, single_set, S1.
+    + apply single_del_same.
+  - split; [split|split].
+    + dsimp. reflexivity.
+    + dsimp. reflexivity.
+    + apply single_set, single_set, S1.
+    + apply single_set_same.
+Qed.
+
+Lemma add_filters_repr_stale d f fs :
+  dict_get k_Filter d = None ->
+  chain_repr (f :: fs) (add_filters d (f :: fs)) /\
+  single k_Filter (add_filters d (f :: fs)) /\ single k_DecodeParms (add_filters d (f :: fs)).
+Proof.
+  intros HF. destruct (append_filter_first d f HF) as [R [S1 S2]].
+  change (add_filters d (f :: fs)) with (add_filters (append_filter d f) fs).
+  exact (add_filters_repr fs [f] _ R S1 S2).
+Qed.
+
 Lemma chain_repr_first f l sd : chain_repr (f :: l) sd ->
   dict_get k_Filter sd = Some (OName (fst f)) \/
   exists rest, dict_get k_Filter sd = Some (OArr (OName (fst f) :: rest)).
@@ -562,6 +610,16 @@ Section Chain.
     rchain (f :: fs) ++ filter_chain (norm_parms (dict_del k_Length d)).
   Proof.
     intros H W. rewrite (filter_chain_declared n g d f fs o H), (old_chain_read_back _ W). reflexivity.
+  Qed.
+
+  (* (C1'') a /DecodeParms entry of the caller without /Filter is dropped by the first filter *)
+  Theorem filter_chain_stale_parms d f fs :
+    dict_get k_Filter d = None ->
+    filter_chain (dict_of (norm (ODict (add_filters d (f :: fs))))) = rchain (f :: fs).
+  Proof.
+    intros HF. rewrite dict_of_norm.
+    destruct (add_filters_repr_stale d f fs HF) as [R [S1 S2]].
+    exact (filter_chain_repr _ _ R S1 S2).
   Qed.
 
   (* (C2) decoding in the order of the chain inverts the encoders *)
@@ -713,12 +771,12 @@ Example ex_stream_computed :
     [3; 3; 2; 1; 0; 14; 1; 11; 0; 14] = Some [1; 2; 3].
 Proof. vm_compute. split; reflexivity. Qed.
 
-(* the hypothesis on /DecodeParms is needed: a stale entry of the caller (without /Filter) is kept
-   by appendFilter when the filter has no parameters, and the reader hands it to the decoder *)
+(* a stale /DecodeParms of the caller (without /Filter) does not become the parameters of the first
+   filter: appendFilter removes it when it installs that filter (stale_parms_dropped) *)
 Example ex_stale_parms :
   let d := [(k_DecodeParms, ODict [(k_Columns, OInt 5)])] in
   let fs := [(k_AHx, [])] in
   dict_get k_Filter d = None /\
-  filter_chain (dict_of (norm (ODict (add_filters d fs)))) = [(k_AHx, [(k_Columns, OInt 5)])] /\
+  filter_chain (dict_of (norm (ODict (add_filters d fs)))) = [(k_AHx, [])] /\
   map (fun f : filt => (fst f, norm_parms (snd f))) fs = [(k_AHx, [])].
 Proof. vm_compute. repeat split; reflexivity. Qed.
